@@ -247,6 +247,15 @@ def w_c13b():
         return f"rule naming the absent module p.a.zz returns a verdict: {out[0]}"
 
 
+def w_c12a():
+    g = make_graph(["p", "p.a", "p.a.x"], [("p.a.x", "p")])
+    alias = run_rule_ops(rule_ops_for("not", True, False, ("P", ["p", "p.a"]), None, anything=True), g)
+    spelt = run_rule_ops(rule_ops_for("not", True, True, ("P", ["p", "p.a"]), ("P", ["p", "p.a"])), g)
+    if alias[0] != spelt[0] or alias[0] != "FAIL":
+        return (f"sub modules of [p, p.a] should not import anything: {alias[0]}; the same rule spelt with 'except' the "
+                f"subjects themselves: {spelt[0]} (import p.a.x -> p)")
+
+
 # ----------------------------------------------------------------------------- C14
 def w_c14a():
     g = make_graph(["p", "p.a", "p.ab", "p.c"], [("p.ab", "p.c")])
@@ -404,6 +413,7 @@ WITNESSES = {
     "F-C11": ("C11", w_c11),
     "F-C13": ("C13", w_c13),
     "F-C13b": ("C13", w_c13b),
+    "F-C12a": ("C12", w_c12a),
     "F-C14a": ("C14", w_c14a),
     "F-C14b": ("C14", w_c14b),
     "F-C14c": ("C14", w_c14c),
